@@ -2,6 +2,7 @@
 package c09
 
 import (
+	"go/format"
 	"regexp"
 	"strings"
 
@@ -192,7 +193,13 @@ func classify(cs fmttie.Case, m1, m2 string, reasons []string, reread string) (s
 		// TrailingSpaceRewritten is a consequence of a flag reason when one is named (FmtReasons.v: the sibling's own reason
 		// comes first); it is a shape of its own only when it stands alone
 		seen := map[string]bool{}
-		if len(reasons) > 1 {
+		nModel := 0
+		for _, r := range reasons {
+			if !strings.HasPrefix(r, goCommentShape) {
+				nModel++
+			}
+		}
+		if nModel > 1 {
 			seen["TrailingSpaceRewritten"] = true
 		}
 		for _, r := range append(append([]string{}, reasons...), rs...) {
@@ -210,6 +217,87 @@ func classify(cs fmttie.Case, m1, m2 string, reasons []string, reread string) (s
 		return []string{"StableInBaselineModel:" + textShape(other[0], other[1])}, false, detail
 	}
 	return rs, false, detail
+}
+
+// ---------- a Go block whose last line turns into (or stops being) a `//` line when gofmt prints it ----------
+//
+// parser/v2/types.go getNodeWhitespace puts ONE line break between a top-level Go block and a templ that follows it when
+// the block's text AS IT WAS READ ends in a `//` line, two otherwise; what is written is the gofmt'd text.  gofmt moves
+// an indented `// c` on the last line to column 0.  Before 48881af the test was HasPrefix(lastLine, "//"), so the text
+// read back ended in a `//` line where the text that was read did not, and the second pass took out the blank line the
+// first one had written (found by the blocks family; fixed: the last line is trimmed of blanks and tabs first, and
+// model/Fmt.v ends_with_comment follows).  The shape is decided on the texts alone, independently of the model, so that
+// a re-introduction is reported under it: a SITE is a Go block directly before a templ whose last line begins with `//`
+// at column 0 only before, or only after, gofmt; the input has the shape when its first pass holds, at a site, the
+// separator that goes with the text as read and its second pass holds the other one.
+const goCommentShape = "GoBlockCommentLineReindented"
+
+type goCommentSite struct {
+	written  string // the block as TemplateFileGoExpression.Write prints it
+	was, now bool   // "the last line is a comment line" for the text read / the text written, by the criterion in force
+}
+
+func lastLine(s string) string {
+	ls := strings.Split(s, "\n")
+	return ls[len(ls)-1]
+}
+
+// the test of the code before 48881af, and the test of the code as it is (= model/Fmt.v ends_with_comment)
+func commentAtColumn0(s string) bool     { return strings.HasPrefix(lastLine(s), "//") }
+func commentBehindBlanks(s string) bool { return strings.HasPrefix(strings.TrimLeft(lastLine(s), " \t"), "//") }
+
+// goCommentSites: the Go blocks directly before a templ for which the criterion gives another answer on the written text
+// than on the text read.  reintro: sites of the repaired defect (the old criterion differs, the one in force does not);
+// residual: sites where the criterion in force still differs, with the shape they are reported under.
+func goCommentSites(tf parser.TemplateFile) (reintro, residual []goCommentSite, residualShape string) {
+	for i := 0; i+1 < len(tf.Nodes); i++ {
+		g, ok := tf.Nodes[i].(parser.TemplateFileGoExpression)
+		if !ok {
+			continue
+		}
+		if _, ok := tf.Nodes[i+1].(parser.HTMLTemplate); !ok {
+			continue
+		}
+		raw := g.Expression.Value
+		data, err := format.Source([]byte(raw))
+		if err != nil {
+			continue
+		}
+		// the parser reads the written text back without the white space at its end
+		w := strings.TrimRight(string(data), " \t\r\n")
+		if was, now := commentBehindBlanks(raw), commentBehindBlanks(w); was != now {
+			residual = append(residual, goCommentSite{written: string(data), was: was, now: now})
+			if residualShape == "" {
+				residualShape = goCommentShape + ":Other"
+				// a carriage return in front of the comment: white space to gofmt, not to the test
+				if strings.HasPrefix(strings.TrimLeft(lastLine(raw), " \t\r"), "//") {
+					residualShape = goCommentShape + ":CarriageReturn"
+				}
+			}
+		} else if was, now := commentAtColumn0(raw), commentAtColumn0(w); was != now {
+			reintro = append(reintro, goCommentSite{written: string(data), was: was, now: now})
+		}
+	}
+	return
+}
+
+// withGoCommentSeparators: text with the separator behind each site decided from the written text
+func withGoCommentSeparators(text string, sites []goCommentSite) string {
+	from := 0
+	for _, st := range sites {
+		old, new := "\n\n", "\n"
+		if st.was {
+			old, new = "\n", "\n\n"
+		}
+		k := strings.Index(text[from:], st.written+old+"templ ")
+		if k < 0 {
+			continue
+		}
+		k += from
+		text = text[:k] + st.written + new + text[k+len(st.written)+len(old):]
+		from = k + len(st.written) + len(new)
+	}
+	return text
 }
 
 func seq(a, b int) []int {
@@ -234,7 +322,7 @@ func encodeReread(p1 string) (enc string, ok bool) {
 }
 
 func Run(c *core.Ctx) {
-	c.Rule = "programs: (a) layout family - one element per file, children on one line: every child kind alone and every ordered pair of child kinds (two separators) exhaustively, then random lists, parents, attributes, contexts; (b) goexpr family - Go expressions over several lines (raw strings, stray back quotes in strings/runes/comments, literals, ragged argument lists) in every expression position, exhaustive position x argument sweeps then random; (c) every .templ file of the repository (incl. the formatter's own test inputs and expected outputs), grammar-generated templ files, and whitespace mutations of both (line joins, extra blank lines, single spaces between any two tokens); distinct non-trivial = distinct inputs accepted by the parser; each is formatted three times with the real formatter"
+	c.Rule = "programs: (a) layout family - one element per file, children on one line: every child kind alone and every ordered pair of child kinds (two separators) exhaustively, then random lists, parents, attributes, contexts; (b) goexpr family - Go expressions over several lines (raw strings, stray back quotes in strings/runes/comments, literals, ragged argument lists) in every expression position, exhaustive position x argument sweeps then random; (c) every .templ file of the repository (incl. the formatter's own test inputs and expected outputs), grammar-generated templ files, and whitespace mutations of both (line joins, extra blank lines, single spaces between any two tokens); (d) blocks family - small files composed of top-level blocks of every kind (Go, css template, script template, templ with script/style elements, expressions, control flow), each block alone, as written and as typed, the end of a Go block (comments of both kinds, indented or not) x the block that follows, random compositions; distinct non-trivial = distinct inputs accepted by the parser; each is formatted three times with the real formatter; (e) formatting histories - files formatted one after the other in one process: every truncation of the single-block files followed by the file and its formatted text, then random histories (growing prefixes of the target, damaged versions of the target, of its formatted text and of other files - cut off at a byte or line end, a brace / quote / > dropped or added, the closing line of a block removed - before the target, between its first and second run, between targets), a sample of them run entirely in new processes, and `templ fmt <dir>` run twice over directories holding rejected files next to targets; distinct non-trivial = a target or formatted target formatted behind at least one rejected file, a history judged in new processes, a directory"
 	c.Proofs()
 	gins := append(layoutInputs(c.Rng, c.N(1200, 12000)), goexprInputs(c.Rng, c.N(1000, 12000))...)
 	nOwn := len(gins)
@@ -248,6 +336,9 @@ func Run(c *core.Ctx) {
 		cs fmttie.Case
 		ok bool
 	}
+	// small files composed of top-level blocks of every kind: inputs like any other here, and the preferred targets of the
+	// history family (generated last, so that the inputs of the older families are what they were for every seed)
+	gins = append(gins, blocksInputs(c.Rng.Fork(), c.N(70, 600))...)
 	rs := make([]ran, len(gins))
 	for _, k := range append(seq(nOwn, len(gins)), seq(0, nOwn)...) {
 		rs[k].cs, rs[k].ok = fmttie.Run(gins[k].in)
@@ -255,6 +346,7 @@ func Run(c *core.Ctx) {
 	var cases []fmttie.Case
 	var fams []string
 	var reqs []drv.Req
+	var targets []histTarget
 	for k, g := range gins {
 		cs := rs[k].cs
 		if !rs[k].ok {
@@ -318,12 +410,29 @@ func Run(c *core.Ctx) {
 			iff = false
 			c.Fail("tie", "unstable_reasons empty iff model predicts a fixed point", "", map[string]any{"file": cs.Name, "source": cs.Src, "reasons": reasons}, "reasons and predicted second pass disagree")
 		}
+		sites, residual, residualShape := goCommentSites(cs.TF)
+		if len(sites) > 0 {
+			c.Hist("input with a Go block before a templ whose last line is an indented `//` comment (gofmt moves it to column 0)")
+		}
+		if len(residual) > 0 {
+			// the layout model keeps a Go block's text under reparse; at these places the text read back is another one, and
+			// the separator of the predicted second pass is decided from it.  Known only when that prediction is the real
+			// second pass (classify).
+			c.Hist("input with a Go block before a templ whose last line is a `//` line for gofmt but not for the formatter's test")
+			if adj := withGoCommentSeparators(m2, residual); adj != m2 {
+				m2 = adj
+				reasons = append(reasons, residualShape)
+			}
+		}
 		if m1 != cs.P1 {
 			tie1 = false
 			if c.NFails("formatter: model first pass = TemplateFile.Write") < 3 {
 				a, b := firstDiffLine(m1, cs.P1)
 				c.Fail("tie", "formatter: model first pass = TemplateFile.Write", "", map[string]string{"file": cs.Name, "source": cs.Src, "model_line": a, "impl_line": b}, "formatted text differs")
 			}
+		}
+		if m1 == cs.P1 && cs.P2Err == "" && len(cs.Src) <= 6000 {
+			targets = append(targets, histTarget{name: cs.Name, src: cs.Src, p1: cs.P1, p2: cs.P2, feature: featureOf(cs.Src)})
 		}
 		if cs.P2Err != "" {
 			accepted = false
@@ -338,6 +447,16 @@ func Run(c *core.Ctx) {
 			nUnstable++
 			c.Hist(fams[i] + ": NOT stable after one pass")
 			shapes, predicted, detail := classify(cs, m1, m2, reasons, reread[i])
+			if len(sites) > 0 {
+				// the first pass holds the separator of the text as read at a site, the second pass does not
+				if adj := withGoCommentSeparators(cs.P1, sites); adj != cs.P1 && withGoCommentSeparators(cs.P2, sites) == cs.P2 {
+					if adj == cs.P2 {
+						shapes, predicted, detail = []string{goCommentShape}, false, map[string]string{} // the whole difference
+					} else {
+						shapes = append([]string{goCommentShape}, shapes...)
+					}
+				}
+			}
 			if predicted {
 				nPredicted++
 			} else if len(reasons) > 0 && m1 == cs.P1 && cs.SameStructure {
@@ -402,6 +521,7 @@ func Run(c *core.Ctx) {
 			c.Sample(map[string]any{"file": cs.Name, "stable": stable, "reasons": reasons})
 		}
 	}
+	historyPhase(c, targets)
 	c.Extra["unstable_inputs"] = nUnstable
 	c.Extra["unstable_inputs_whose_second_pass_the_baseline_model_predicts"] = nPredicted
 	c.Oblige("correspondence", "formatter model first pass = TemplateFile.Write, byte for byte, on every accepted input", tie1, "")
